@@ -174,7 +174,8 @@ def audit(filtered, full, src, route, raw_text=None):
         kind = "account-keys" if missing[0].startswith(("m/", "xpub", "ypub", "zpub", "tpub", "upub", "vpub")) and missing[0] in [full[n]["account_extended_keys"][k] for n in ("BIP44", "BIP49", "BIP84") for k in ("path", "pub")] else "rows"
         viols.append(V("%s:%s:public-data:%s-differ" % (P, route, kind), "%d public strings of the unfiltered output are missing from the %s output, e.g. %r" % (
             len(missing), route, missing[0])))
-    allowed = set(public) | {"BIP44", "BIP49", "BIP84", "account_extended_keys", "groups", "path", "pub"}
+    # what else may appear: any string that the unfiltered output shows as well (a secret among them is caught above) and field names
+    allowed = set(public) | {"BIP44", "BIP49", "BIP84", "account_extended_keys", "groups", "path", "pub"} | {l for l in leaves(full) if isinstance(l, str)}
     extra = [l for l in out_leaves if l not in allowed and len(l) >= 20]
     if extra:
         viols.append(V("%s:%s:public-data:altered-or-new-string" % (P, route), "the %s output contains %r, which is neither a public string of the unfiltered output nor a field name" % (
